@@ -40,6 +40,7 @@ def run(ctx, res):
     for cfg in ctx.feature_configs():
         lib = lib_crate(ctx.crates(cfg))
         ses, words, I = session.process_byte_words(lib)
+        words = session.shaped(words)      # flushes are C15's; an empty text skipped = an empty write
         if ses.from_command is None:
             # help feature off: every non-empty command is dispatched (also C16)
             for word, status in words['Enter']:
